@@ -89,6 +89,8 @@ def run(ctx):
                        "(%d CFG nodes)" % len(g.reachable),
                        loc=m.loc(fi, s["call"]))
     run.analysed["functions_with_producers"] = n_fn
+    run.analysed["consuming_parameters"] = sorted(
+        "%s(%s)" % k for k, v in getattr(prods, "_consumes", {}).items() if v)
     run.analysed["exits_checked"] = exits
 
     _r2(ctx)
